@@ -202,13 +202,13 @@ Proof. intros Hs. destr_world w. cbn in Hs. subst. reflexivity. Qed.
 Lemma open_rejected_hold c msg asn phold caps w : Good c w -> w_state w = StOpenSent ->
   c_closing (get_conn c w) = false -> w_out w = [] ->
   d_open D msg = OpOk asn phold caps -> asn = cf_remote_as (w_cfg w) ->
-  N.min (w_hold w) phold <> 0 -> N.min (w_hold w) phold < 3 ->
+  hold_refused phold (N.min (w_hold w) phold) = true ->
   let w' := snd (open_received D c msg w) in
   w_state w' = StIdle /\
   notif_of (rev (w_out w')) = [(c_ERR_MSG_OPEN, c_ERR_MSG_OPEN_UNACCPT_HOLD_TIME)] /\
   kinds_of (rev (w_out w')) = [3; 0].
 Proof.
-  intros Hg Hs Hcl Ho Hd Heq Hnz Hlt3. unfold open_received. cbv zeta. rewrite Hd.
+  intros Hg Hs Hcl Ho Hd Heq Hr. unfold open_received. cbv zeta. rewrite Hd.
   assert (Hq : (asn =? cf_remote_as (w_cfg (upd_conn c (on_recv bump_open) w))) = true)
     by (apply N.eqb_eq; exact Heq).
   rewrite Hq. cbn [negb snd].
@@ -229,9 +229,7 @@ Proof.
   assert (H1 : w_hold w1 = w_hold w) by (unfold w1; destruct (cap_has KFourBytesAs caps); reflexivity).
   clearbody w1.
   unfold negotiate_hold_time. cbv zeta. cbn [w_hold set_w_hold]. rewrite H1.
-  assert (Hm : negb (N.min (w_hold w) phold =? 0) && (N.min (w_hold w) phold <? 3) = true).
-  { apply andb_true_iff. split; [apply negb_true_iff, N.eqb_neq; exact Hnz | apply N.ltb_lt; exact Hlt3]. }
-  rewrite Hm.
+  rewrite Hr.
   set (w2 := set_w_hold (N.min (w_hold w) phold) w1).
   assert (G2 : Good c w2) by (apply (Good_frame c w1); try reflexivity; exact G1).
   destruct (ome_effects c c_ERR_MSG_OPEN_UNACCPT_HOLD_TIME [] w2 G2 C1) as [E1 E2].
@@ -245,7 +243,7 @@ Qed.
 Lemma open_accepted c msg asn phold caps w : Good c w -> w_state w = StOpenSent ->
   c_closing (get_conn c w) = false -> w_out w = [] ->
   d_open D msg = OpOk asn phold caps -> asn = cf_remote_as (w_cfg w) ->
-  (N.min (w_hold w) phold = 0 \/ 3 <= N.min (w_hold w) phold) ->
+  hold_refused phold (N.min (w_hold w) phold) = false ->
   let w' := snd (open_received D c msg w) in
   w_state w' = StOpenConfirm /\ kinds_of (rev (w_out w')) = [4] /\
   w_hold w' = N.min (w_hold w) phold /\
@@ -258,9 +256,7 @@ Proof.
   assert (Hq : (asn =? cf_remote_as cfg) = true) by (apply N.eqb_eq; exact Heq).
   cbn [w_cfg upd_conn set_w_conns]. rewrite Hq. cbn [negb snd].
   unfold negotiate_hold_time. cbv zeta.
-  assert (Hm : negb (N.min hold phold =? 0) && (N.min hold phold <? 3) = false).
-  { destruct Hok as [Hz|Hge]; [rewrite Hz; reflexivity|].
-    apply andb_false_iff. right. apply N.ltb_ge. exact Hge. }
+  assert (Hm : hold_refused phold (N.min hold phold) = false) by exact Hok.
   destruct (cap_has KFourBytesAs caps); cbn [w_hold set_w_hold upd_conn set_w_conns set_w_capr];
     rewrite Hm; sym_c; rewrite ?Hcl in *; cbn in *; try discriminate;
     destruct (0 <? N.min hold phold); cbn;
